@@ -119,6 +119,10 @@ func famRepro(tr *Trace, scratch string, seed int64, tier string, nfpmBin string
 			c.Recommends, c.Suggests = []string{"m", "n", "m", "o"}, []string{"u", "v", "u", "w"}
 			c.DebPredepends, c.IpkPredepends = []string{"pd", "pe", "pd", "pf"}, []string{"ia", "ib", "ia", "ic"}
 		}
+		if i%3 == 1 || i == 0 { // several alternatives with different link names; a ghost (no bytes, but a time like any entry)
+			c.IpkAlts = []Alt{{100, "/usr/bin/tool", "/usr/bin/t-one"}, {50, "/usr/bin/tool", "/usr/bin/t-two"}, {10, "/usr/bin/tool", "/usr/bin/t-three"}, {5, "/usr/bin/tool", "/usr/bin/t-four"}}
+			c.Entries = append(c.Entries, Entry{Type: "ghost", Dst: "/var/log/repro-ghost.log"}, Entry{Type: "ghost", Dst: "/var/lib/repro/ghost-with-mode", Fi: Fi{Mode: 0o600}, HasFi: true})
+		}
 		if i == 7 { // an architecture no table knows: passed on as it is, the same in every build
 			c.Arch = "arm64v8.0"
 		}
